@@ -669,3 +669,37 @@ def r_setcur(model, rep):
     sc = [ev for ev in cx.events if ev.kind == "call" and ev.value[1][0] == "attr" and ev.value[1][2] == "set_current_version"]
     rep.ob("R-SETCUR", "composeinfo.ComposeInfo.__init__", bool(sc), site=cx.site(f.node), trivial=True,
            msg="" if sc else "ComposeInfo() no longer starts at the current version")
+
+
+# ---------------------------------------------------------------------------------------------------------
+# R-DEFASSIGN: no value left over from a previous loop iteration (or never assigned) reaches a store/call/return
+# ---------------------------------------------------------------------------------------------------------
+def r_defassign(model, rep, modules, rule_id="R-DEFASSIGN"):
+    n = 0
+    for f in model.all_functions():
+        if f.module.name not in modules:
+            continue
+        cx = facts.fctx(model, f)
+        loop_targets = set()
+        for node in ast.walk(f.node):
+            if isinstance(node, ast.For):
+                for t in ast.walk(node.target):
+                    if isinstance(t, ast.Name):
+                        loop_targets.add(t.id)
+        bad = {}
+        for ev in cx.events:
+            if ev.kind not in ("store", "call", "return", "raise"):
+                continue
+            for t in (ev.value, ev.target):
+                if t is None:
+                    continue
+                for x in T.walk(t):
+                    if x[0] == "carried" or (x[0] == "undef" and x[1] not in loop_targets):
+                        bad.setdefault(x[1], ev.lineno)
+        n += 1
+        if bad or any(isinstance(x, (ast.For, ast.While)) for x in ast.walk(f.node)):
+            rep.ob(rule_id, f.qname, not bad, site=cx.site(min(bad.values()) if bad else f.node),
+                   msg="" if not bad else "variable(s) %s may reach a use without being assigned on that path of the same loop iteration "
+                                         "(value left over from the previous iteration, or undefined)" % ", ".join(sorted(bad)))
+    if n < 5:
+        raise AnalysisError("vacuity guard: R-DEFASSIGN examined %d functions" % n)
